@@ -890,9 +890,10 @@ class C06(Property):
         ub = indep_bounds(subs, y)
         # (open system: a species that holds all of an element sits ON its "elemental bound"; with a feed pushing it up the callback
         #  computes (ub - y)/f with ub - y = rounding noise of either sign, i.e. a step of +-1e-17: accepted as zero there only)
-        hmin = -1e-12 * cap if feed else 0.0
-        if hmin <= h < 0:
-            h = 0.0
+        #  a negative value whose whole effect |h*f_i| is below 1e-12 of the concentration scale counts as the zero step; triaged:
+        #  the closed-system bound is no limit of an open tank, h = 0 satisfies the clause)
+        if feed and h < 0 and all(abs(h * f[i]) <= 1e-12 * (abs(y[i]) + (ub[i] if math.isfinite(ub[i]) else 0) + 1e-300) for i in range(ns)):
+            return None
         if not (0 <= h <= cap * (1 + 1e-12)):
             return 'max_euler_step_cb: step %r (user time scale) outside [0, %r] at y=%r%s' % (h, cap, y, where)
         best = math.inf
